@@ -767,3 +767,10 @@ def run(facts, rep, tier):
     rep.rule("C16-R7b", "= C04-R2: a note that arrives by insert / edit is indexed from its root only, a bulk load indexes every arena slot: both give the same backlinks only if the index walker "
              "follows every `child` and `next` link of every node kind.")
     _c04.rule_r2(facts, rep, "C16-R7b")
+    rep.rule("C16-R9", "= C18-R4 (ties): paths that tie on rank and key are ordered by their rendered text, not by node ids - ids follow the order in which notes were inserted or edited.")
+    c18.rule_search_ties(facts, rep, "C16-R9")
+    rep.rule("C16-R7c", "= C04-R1 / C04-R6: whether a note arrived by bulk load, by insert or by a later edit, the references TO it are the same: only RefIndex's own methods and the two "
+             "tombstone-filtering wrappers touch the index fields (an `update` that clears a key's entries forgets every other note's links to it - backlinks, ranks and search order "
+             "then depend on which notes were edited).")
+    _c04.rule_r1(facts, rep, "C16-R7c")
+
